@@ -131,12 +131,14 @@ def build_archive(tool, root, rel):
         f.write(b"\xff\x00\x02\x00\x00")
     with open(os.path.join(root, "two.txt"), "wb") as f:
         f.write(b"hello" * 100)
+    with open(os.path.join(root, "nil.dat"), "wb") as f:
+        pass
     env = dict(os.environ, PYTHONPATH=os.path.join(REPO, "src"), PYTHONDONTWRITEBYTECODE="1")
     if tool == "moto_tar":
-        code = "import sys; sys.argv=['x','-c',%r,'one.bas','two.txt']; from moto_tar.tar import TapeArchiveCli; sys.exit(TapeArchiveCli().run())" % rel
+        code = "import sys; sys.argv=['x','-c',%r,'one.bas','two.txt','nil.dat']; from moto_tar.tar import TapeArchiveCli; sys.exit(TapeArchiveCli().run())" % rel
     else:
         t = "SDDRIVE_FLOPPY_IMAGE" if tool == "moto_sdar" else "EMULATOR_FLOPPY_IMAGE"
-        code = ("import sys; sys.argv=['x','-c',%r,'one.bas','two.txt']; from moto_lib.fs_disk.cli import DiskArchiveCli; from moto_lib.fs_disk.image import TypeOfDiskImage; "
+        code = ("import sys; sys.argv=['x','-c',%r,'one.bas','two.txt','nil.dat']; from moto_lib.fs_disk.cli import DiskArchiveCli; from moto_lib.fs_disk.image import TypeOfDiskImage; "
                 "sys.exit(DiskArchiveCli(typeOfArchive=TypeOfDiskImage.%s).run())" % (rel, t))
     p = subprocess.run([PY, "-c", code], cwd=root, stdout=subprocess.PIPE, stderr=subprocess.PIPE, env=env, timeout=120)
     if p.returncode != 0 or not os.path.exists(os.path.join(root, rel)):
@@ -145,8 +147,8 @@ def build_archive(tool, root, rel):
 
 def expected_outputs(tool, base):
     if tool == "moto_tar":
-        return {os.path.join(base, "ONE.BAS"): b"\xff\x00\x02\x00\x00", os.path.join(base, "TWO.TXT"): b"hello" * 100}
-    return {os.path.join(base, "side0", "ONE.BAS"): b"\xff\x00\x02\x00\x00", os.path.join(base, "side0", "TWO.TXT"): b"hello" * 100}
+        return {os.path.join(base, "ONE.BAS"): b"\xff\x00\x02\x00\x00", os.path.join(base, "TWO.TXT"): b"hello" * 100, os.path.join(base, "NIL.DAT"): b""}
+    return {os.path.join(base, "side0", "ONE.BAS"): b"\xff\x00\x02\x00\x00", os.path.join(base, "side0", "TWO.TXT"): b"hello" * 100, os.path.join(base, "side0", "NIL.DAT"): b""}
 
 
 TOOL_ID = {"moto_tar": 0, "moto_sdar": 1, "moto_fdar": 2}
@@ -292,6 +294,7 @@ def run_case(case, ctx):
                     return CaseResult(True, False, {"disagreement": None, "oracle": bad}, sig, True)
                 os.remove(os.path.join(root, "one.bas")) if sc != "add" else None
                 os.remove(os.path.join(root, "two.txt"))
+                os.remove(os.path.join(root, "nil.dat"))
                 arch0 = open(os.path.join(root, rel), "rb").read()
                 before = snapshot(root)
                 if sc == "list":
